@@ -20,14 +20,16 @@ meta.update({
 })
 meta.setdefault('checks', {})[check] = {'exit': rc, 'detected': rc == 1, 'fingerprints': fps,
                                         'how': f'tools/seed_check.sh {name} {check} (scratch worktree of /repo HEAD + patch, GNPY_REPO)'}
-if '_w2_' in name or '_w3_' in name:
-    w = 2 if '_w2_' in name else 3
+if '_w2_' in name or '_w3_' in name or '_w4_' in name:
+    w = 2 if '_w2_' in name else (3 if '_w3_' in name else 4)
     prop, short = name.split(f'_w{w}_', 1)
-    init = json.load(open(f'/verif/seeded/wave{w}_initial.json')).get(prop, {})
+    ip = f'/verif/seeded/wave{w}_initial.json'
+    init = json.load(open(ip)).get(prop, {}) if os.path.exists(ip) else {}
     meta['wave'] = w
     meta['confirmed']['how'] = f'tools/seed_verify{w}.sh in a scratch worktree of /repo HEAD under /tmp/wt'
     if short in init:
-        meta['reported_before_the_check_was_strengthened_for_wave_2'] = init[short]
+        meta['reported_before_the_check_was_strengthened_for_wave_2'] = init[short]   # key name kept from wave 2
+        meta['reported_as_delivered_before_the_check_was_touched'] = init[short]
 else:
     meta['wave'] = 1
 json.dump(meta, open(meta_p, 'w'), indent=1)
